@@ -64,6 +64,17 @@ def _sig_hist(d, it, codes):
     return None
 
 
+def _sig_c18(d, it, codes):
+    item = (d or {}).get("items", {}).get(str(it), {})
+    if 2 in codes and item.get("kind") == "cross":
+        if not item.get("same_server_uri"):
+            return "C18/cross-filter-session/distinct-stores"
+        return "C18/cross-filter-session/" + ("memory" if item.get("store_j") == "mem" else "redis-same-server-uri")
+    if 4 in codes and item.get("kind") == "timeouts":
+        return "C18/foreign-timeouts/" + item.get("rule", "?")
+    return None
+
+
 PROPS = {
     "C01": {
         "modules": ["Properties.C01"],
@@ -167,7 +178,7 @@ PROPS = {
     },
     "C16": {
         "modules": ["Properties.C16"],
-        "theorems": ["C16_lockset_sound"],
+        "theorems": ["C16_lockset_sound", "C16_obligation_sound"],
         "obligation_codes": [3],
         "race": True,
         "describe_item": (lambda d, it: {0: "a location outside the committed list is written while serving and accessed outside its lock",
@@ -177,6 +188,17 @@ PROPS = {
                     "Corr/C16.v known_unprotected: the committed list of locations that are unprotected for a stated reason (goroutine-confined, published through a channel, or an open finding)"],
         "assumptions": ["PARTIAL: the theorem is the soundness of the lock discipline for ALL executions; that the code follows the discipline is a per-run syntactic obligation plus the race detector on the schedules that occurred",
                         "the Go memory model's rule that Unlock synchronises-with a later Lock is taken as given"],
+    },
+    "C18": {
+        "modules": ["Properties.C18"],
+        "theorems": ["C18_ok_has_origin", "C18_isolated_when_stores_distinct", "C18_own_timeouts_when_stores_distinct",
+                     "C18_refuted_shared_store", "C18_refuted_foreign_timeouts"],
+        "describe_item": (lambda d, it: d.get("items", {}).get(str(it), it)),
+        "signature": _sig_c18,
+        "trusted": _HANDLER_TRUSTED + ["the store objects' timeouts are read from their unexported fields by reflection; how a store enforces its timeouts is C10's business",
+                                       "one provider simulator serves all filters (distinct endpoints paths, client ids and secrets per filter)"],
+        "assumptions": ["the property as stated is refuted for configurations in which two filters are handed the same store (C18_refuted_shared_store, C18_refuted_foreign_timeouts; known findings); the positive theorems carry the hypothesis stores_distinct",
+                        "filters are in separate chains (one OIDC filter per chain), as in the property's quantifier"],
     },
     "C03": {
         "modules": ["Properties.C03"],
